@@ -1920,7 +1920,7 @@ func (f *fragment) mergeBlock(id int, data []pairSet) (sets, clears []pairSet, e
 	clears = make([]pairSet, len(data)+1)
 
 	// Limit upper row/column pair.
-	maxRowID := uint64(id+1) * HashBlockSize
+	maxRowID := uint64(id+1)*HashBlockSize - 1
 	maxColumnID := uint64(ShardWidth)
 
 	// Create buffered iterator for local block.
@@ -2001,8 +2001,8 @@ func (f *fragment) mergeBlock(id int, data []pairSet) (sets, clears []pairSet, e
 				sets[i].rowIDs = append(sets[i].rowIDs, min.rowID)
 				sets[i].columnIDs = append(sets[i].columnIDs, min.columnID)
 			} else {
-				clears[i].rowIDs = append(sets[i].rowIDs, min.rowID)
-				clears[i].columnIDs = append(sets[i].columnIDs, min.columnID)
+				clears[i].rowIDs = append(clears[i].rowIDs, min.rowID)
+				clears[i].columnIDs = append(clears[i].columnIDs, min.columnID)
 			}
 		}
 	}
@@ -3056,7 +3056,7 @@ func (s *fragmentSyncer) syncBlock(id int) error {
 
 			clearReq := &ImportRoaringRequest{
 				Clear: true,
-				Views: map[string][]byte{"": clearData},
+				Views: map[string][]byte{cleanViewName(f.view): clearData},
 			}
 
 			if err := s.Cluster.InternalClient.ImportRoaring(ctx, uris[i], f.index, f.field, f.shard, true, clearReq); err != nil {
